@@ -13,7 +13,7 @@ BODIES = ['(+ :x 1)', '(map .arr (+ . :x))', '(map .arr ^.name)', '(map .arr (se
           '(sort_by .arr (- :x .))', '(get . :s)', '(: "x")', '(map .arr (: "x"))']
 VALS = {'x': ['1', '2', '10', '"v"', '[1]'], 's': ['"name"', '"arr"', '"z"']}
 MACROS = ['(+ .a 1)', '.name', '(map .arr (+ . 1))', '^.name', '(size .arr)', '(| .arr (first .))', '(concat .name "!")']
-MBODIES = ['@m', '(map .arr @m)', '(map .arr (| . ^ @m))', '(+ 1 (default @m 0))', '(? true @m 0)', '(@ "m")', '(push [] @m @m)', '(map .arr (define "k" 5 @m))']
+MBODIES = ['@m', '(map .arr @m)', '(map .arr (| . ^ @m))', '(+ 1 (default @m 0))', '(? true @m 0)', '(@ "m")', '(push [] @m @m)', '(map .arr (define "k" 5 @m))', '(push [] (: "m") @m)', '(default (: "m") @m)', '(push [] :m @m)']
 INPUT = {'name': 'N', 'a': 4, 'arr': [1, 2, 3], 'obj': {'p': 1, 'q': 2}}
 
 def subst_var(body, name, val):
